@@ -603,9 +603,12 @@ def run(ctx):
             seen_net_model.add(key)
             P = "(proc_init %s)" % netl
             tr = "(ssa_tree %d %s)" % (n, pl)
+            # tscore / admissible of the returned tree by the Coq SPEC, and the executable
+            # hypothesis wf_procb of the theorems C09_dp_optimal / C09_optimize_optimal_is_optimal
             lhs2 = ("let p := %s in (tscore (p_nodes p) (p_app p) (p_sizes p) %s %s, "
-                    "admissible (p_nodes p) (p_app p) %s %s)" % (P, cobj, tr, coq(bool(so)), tr))
-            rhs2 = "(%s, true)" % coq(Z(got))
+                    "(admissible (p_nodes p) (p_app p) %s %s, wf_procb (p_nodes p) (p_app p) (p_sizes p)))"
+                    % (P, cobj, tr, coq(bool(so)), tr))
+            rhs2 = "(%s, (true, true))" % coq(Z(got))
             cases.append((job["id"] + "_spec", lhs2, rhs2))
             recs.append(dict(rec, what="Coq spec score / admissibility of the returned tree"))
             if n <= enum_limit:
